@@ -241,6 +241,10 @@ func (p *sp) postfix() Val {
 		case "garrint":
 			a = intV(fmt.Sprintf("(select %s %s)", a.T, i.T))
 		default:
+			if a.Kind == "int" && p.g.opaqueStr && a.Len == "" { // byte of an opaque string
+				a = intV(fmt.Sprintf("(%s %s %s)", p.g.uf("strbyte", 2, "Int"), a.T, i.T))
+				continue
+			}
 			if a.Len == "" && a.Ref == "" {
 				panic(specErr{"spec: indexing a non-sequence in " + p.src})
 			}
